@@ -182,6 +182,14 @@ bool buffergroup::turn_iter()
   return true;
 };
 /*
+wait_buffer:等待缓冲区首次就绪(工作线程在第一次取表项之前调用)
+id:缓冲区标号
+*/
+void buffergroup::wait_buffer(const u8_t id)
+{
+  ctrl[id].wait_ready();
+}
+/*
 require_buffer_entry:获取下一个缓冲区表项
 id:缓冲区标号
 return:表项地址，若缓冲区已经读取完毕返回NULL
